@@ -343,6 +343,40 @@ func (r *rig) observe(n *node, wantReg map[[2]string]bool) NodeState {
 	return st
 }
 
+// byKind: GetActiveByKind(k) lists exactly the active actors of kind k (a kind is the first segment of kind/id; ids may
+// contain the separator themselves)
+func (r *rig) byKind(n *node, want NodeState) string {
+	kinds := map[string]bool{}
+	for _, id := range r.cfg.Ids {
+		kinds[id[0]] = true
+	}
+	for k := range kinds {
+		exp := []string{}
+		for _, p := range want.Activated {
+			if p.K == k {
+				for _, x := range r.expand(p.I) {
+					exp = append(exp, k+"/"+x)
+				}
+			}
+		}
+		sort.Strings(exp)
+		got := []string{}
+		for _, pid := range n.c.GetActiveByKind(k) {
+			if pid != nil {
+				got = append(got, pid.ID)
+			}
+		}
+		sort.Strings(got)
+		if fmt.Sprint(got) != fmt.Sprint(exp) {
+			if len(got) > 6 || len(exp) > 6 {
+				return fmt.Sprintf("GetActiveByKind(%s) lists %d actors, expected %d", k, len(got), len(exp))
+			}
+			return fmt.Sprintf("GetActiveByKind(%s) lists %v, expected %v", k, got, exp)
+		}
+	}
+	return ""
+}
+
 func canon(st NodeState) string {
 	a := append([]PidJ{}, st.Activated...)
 	sort.Slice(a, func(i, j int) bool { return a[i].K+a[i].I < a[j].K+a[j].I })
@@ -750,6 +784,9 @@ func runScenario(cfg Config, sc Scenario) (fail *Failure) {
 			got := r.observe(r.nodes[name], wr)
 			if canon(got) != canon(want) {
 				return bad(i, fmt.Sprintf("after %s node %s shows %s, expected %s", describe(st), name, canon(got), canon(want)))
+			}
+			if what := r.byKind(r.nodes[name], want); what != "" {
+				return bad(i, fmt.Sprintf("after %s on node %s %s", describe(st), name, what))
 			}
 		}
 		for _, t := range touched { // events published while observing (none expected) are caught by the next step
